@@ -9,7 +9,7 @@
 // ---------------------------------------------------------------------------------------------
 pub fn c20_key_generation(rng: ChaCha20Rng)
 {
-    let ghost s0 = rng.state();
+    let ghost s0 = rng.st();
     let k1 = SecretKey::new();
     assert(exists|g: ChaCha20Rng| #[trigger] fresh_rng(g) && k1.0 == hs(draw_bytes(g.state(), 32), KEYGEN_SALT_spec()));
     let k2 = SecretKey::random(rng);
